@@ -201,9 +201,24 @@ func (w *worldA) serviceCheck(tag string) {
 	if l == nil || !l.up {
 		return
 	}
-	before := w.e.rlog.Len()
+	// an insertion can only be accepted while a majority of the configured nodes
+	// is running: a leader that lost its quorum rightly refuses (and steps down)
+	upVoters := 0
+	for _, v := range w.e.nodes {
+		if v.inConfig && v.up {
+			upVoters++
+		}
+	}
+	if upVoters < w.e.configSize()/2+1 {
+		w.r.Count("probe.service_check_skipped_no_quorum")
+		return
+	}
+	// accepted = acknowledged with a snapshot (the committed log may grow by more
+	// than one here: an earlier insertion that lost its leader before committing
+	// stays in the log and commits under the next leader)
+	ackedBefore := len(w.acked)
 	w.doAdd(Step{Op: "add", K: 1, Kind: "http", Data: "sync"})
-	if w.e.rlog.Len() != before+1 {
+	if len(w.acked) != ackedBefore+1 {
 		w.r.Fail("service-continues", "%s: a valid insertion through the leader's HTTP API was not accepted", tag)
 	}
 	for _, nd := range w.e.nodes {
